@@ -44,7 +44,7 @@ Context(ev) ==
       cls |-> IF deadRoot THEN "rep/root-ep-not-capturable" ELSE "",
       \* a search recorded without info output (tiny table) may have been aborted without us seeing the abort line:
       \* only the clauses that hold for aborted searches too are applied to it
-      depth |-> ev.depth, hard |-> ev.hard, lastDepth |-> -1, lastNodes |-> 0, head |-> 0, aborted |-> (ev.tt < 32000), eng |-> ev.eng]
+      depth |-> ev.depth, hard |-> ev.hard, lastDepth |-> -1, lastNodes |-> 0, head |-> 0, aborted |-> (IF "tt" \in DOMAIN ev THEN ev.tt < 32000 ELSE FALSE), eng |-> ev.eng]
 
 TGo ==
   /\ IsEvent("go")
